@@ -169,7 +169,7 @@ Section Step.
     E_pend : pend g h x' = pend g h x0;
     E_trc : trcount g h x' = trcount g h x0;
     E_nd : entv s h = MARK -> needsC g h x' <= needsC g h x0;
-    E_hfr : hugec g h (ms_held s') + hfr g h x' = hugec g h (ms_held s) + hfr g h x0
+    E_hfr : hugec g h (ms_held s') + hfr g h x' <= hugec g h (ms_held s) + hfr g h x0
   }.
 
   Lemma same_step s s' t x0 x' h :
